@@ -19,6 +19,18 @@ use std::time::Instant;
 
 fn main() {
     let args: Vec<String> = std::env::args().collect();
+    if args.len() >= 5 && args[1] == "C05EMIT" {
+        common::silence_panics();
+        let quick = args[2] != "thorough";
+        let h = std::thread::Builder::new().stack_size(1 << 30).spawn(move || props::c05::emit(quick, args[3].parse().unwrap_or(8), &args[4])).unwrap();
+        h.join().unwrap();
+        return;
+    }
+    if args.len() >= 4 && args[1] == "C05SHOW" {
+        common::silence_panics();
+        props::c05::show(args[2] != "thorough", args[3].parse().unwrap_or(0));
+        return;
+    }
     if args.len() >= 4 && args[1] == "C25DEEP" {
         std::process::exit(props::c25::deep_child(&args[2], args[3].parse().unwrap_or(1000)));
     }
